@@ -1,16 +1,12 @@
 """C03 — no service before AAA accept; a reject leaves nothing allocated.
-Stage 1 PPPoE gate (internal/pppoe + internal/ppp + pkg/ppp), stage 2 IPoE gate (internal/ipoe),
-stage 3 RADIUS username-fallback deny + AAA response mapping (plugins/auth/radius, internal/aaa)."""
+Built: stage 1, the PPPoE gate (internal/pppoe + internal/ppp + pkg/ppp).  The IPoE gate and a RADIUS harness are
+not built (notes/C03.md); the RADIUS decision table is a model + theorem only."""
 import itertools
 
 ID = "C03"
 HARNESSES = [
     dict(name="pppoe", pkg="./internal/pppoe/", test="TestVerifC03PPPoE", timeout=900,
          files=[("internal/pppoe/zz_verif_c03_pppoe_test.go", "harness/C03/zz_verif_c03_pppoe_test.go")]),
-    dict(name="ipoe", pkg="./internal/ipoe/", test="TestVerifC03IPoE", timeout=900,
-         files=[("internal/ipoe/zz_verif_c03_ipoe_test.go", "harness/C03/zz_verif_c03_ipoe_test.go")]),
-    dict(name="radius", pkg="./plugins/auth/radius/", test="TestVerifC03Radius", timeout=900,
-         files=[("plugins/auth/radius/zz_verif_c03_radius_test.go", "harness/C03/zz_verif_c03_radius_test.go")]),
 ]
 VARIANTS = ["repaired", "defective"]
 MODEL_NEEDS_IMPL = True   # only for the FSM table flavour reported by the harness (see notes/C03.md)
@@ -19,10 +15,7 @@ RULE = ("pppoe: (a) systematic: each of 12 prefixes reaching a distinct phase/FS
         "PAP negotiated) x every single event of the alphabet (63 frame kinds over LCP/PAP/CHAP/IPCP/IPv6CP/IPv6/unknown "
         "protocols, AAA accept/accept+static/reject/error for request ordinals {empty,1,2,3,unknown}, 4 timers, PADT, dead "
         "peer, dataplane completion, re-open) x 3 probe suffixes; (b) random walks over the same alphabet, 1-3 "
-        "subscribers, pool of 0-2 addresses, biased towards progress; "
-        "ipoe: systematic prefixes x events and random walks over DISCOVER/REQUEST/SOLICIT/REQUEST6/RELEASE, AAA answers "
-        "for the current, an earlier, another subscriber's and an unknown session id, dataplane completion; "
-        "radius: the whole decision table fallback x server answer x access type. "
+        "subscribers, pool of 0-2 addresses, biased towards progress. "
         "Non-trivial: a case in which at least one AAA answer is delivered and at least one service output or one "
         "gated (dropped) client packet occurs. Distinct: by case text.")
 TRUSTED = ["PPP option contents are abstracted to ack/nak/reject quality; addresses to {none,pool,static,fallback}",
